@@ -173,7 +173,7 @@ impl ConnCfg {
         ntex_mqtt::QoS::try_from(q).unwrap()
     }
 
-    pub fn shared_cfg(&self, tag: &'static str) -> SharedCfg {
+    fn build_shared_cfg(&self, tag: &'static str) -> SharedCfg {
         let mut m = MqttServiceConfig::new()
             .set_max_qos(Self::qos(self.max_qos))
             .set_max_size(self.max_size)
@@ -197,6 +197,21 @@ impl ConnCfg {
             io = io.set_frame_read_rate(Seconds(t), Seconds(mt), r);
         }
         SharedCfg::new(tag).add(m).add(io).into()
+    }
+
+    /// Configuration object for the library. Every `IoConfig` instance owns a slot in the
+    /// per-thread buffer cache of the I/O layer, so building a fresh one per scenario makes that
+    /// cache grow without bound: equal parameter sets share one instance per thread.
+    pub fn shared_cfg(&self, tag: &'static str) -> SharedCfg {
+        thread_local! {
+            static CFGS: RefCell<std::collections::HashMap<String, SharedCfg>> = RefCell::new(std::collections::HashMap::new());
+        }
+        let key = format!(
+            "{tag}|{}|{}|{}|{}|{}|{}|{}|{}|{:?}|{}|{:?}|{}|{:?}",
+            self.max_qos, self.max_size, self.max_receive, self.max_receive_size, self.max_topic_alias, self.max_send, self.min_chunk_size,
+            self.max_payload_buffer, self.handle_qos_after_disconnect, self.connect_timeout, self.write_buf, self.disconnect_timeout, self.frame_read_rate
+        );
+        CFGS.with(|c| c.borrow_mut().entry(key).or_insert_with(|| self.build_shared_cfg(tag)).clone())
     }
 
     /// the CONNECT a scripted peer sends to a server role
@@ -562,9 +577,22 @@ async fn proto_common(app: &Rc<App>, kind: &'static str, pid: Option<u16>) -> Pr
         let g = app.gate(GateKind::Proto, call);
         g.wait().await;
     }
+    let answer = match plan.answer.clone() {
+        ProtoAnswer::CloseSinkThenAck(code) => {
+            let sink = app.sink.borrow().clone();
+            if let Some(s) = sink {
+                match code {
+                    Some(c) if s.is_v5() => s.close_with_reason(c),
+                    _ => s.close(),
+                }
+            }
+            ProtoAnswer::Ack
+        }
+        a => a,
+    };
     app.log(Ev::ProtoExit { call, answer: plan.answer.clone() });
     guard.disarm();
-    plan.answer
+    answer
 }
 
 fn perr(e: ntex_mqtt::error::PayloadError) -> String {
@@ -622,6 +650,7 @@ async fn v3_protocol(app: Rc<App>, msg: v3::ProtocolMessage) -> Result<v3::Proto
         }),
         ProtoAnswer::Disconnect | ProtoAnswer::DisconnectWith(_) => Ok(msg.disconnect()),
         ProtoAnswer::Err => Err(TestErr::Plain),
+        ProtoAnswer::CloseSinkThenAck(_) => unreachable!("resolved in proto_common"),
     }
 }
 
@@ -693,6 +722,7 @@ async fn v5_protocol(app: Rc<App>, msg: v5::ProtocolMessage) -> Result<v5::Proto
             v5::codec::DisconnectReasonCode::try_from(code).unwrap_or(v5::codec::DisconnectReasonCode::UnspecifiedError),
         ))),
         ProtoAnswer::Err => Err(TestErr::Plain),
+        ProtoAnswer::CloseSinkThenAck(_) => unreachable!("resolved in proto_common"),
     }
 }
 
